@@ -315,10 +315,77 @@ fn show(c: &Case) -> serde_json::Value {
     json!({"k": c.t.k, "min_freq": c.freq.value(t.nsamples()), "allow_ambiguous": c.allow_ambiguous, "threads": c.threads, "rows": t.rows.values().take(12).map(|r| lossy(r)).collect::<Vec<_>>()})
 }
 
+// ---- many samples and rows: sample / row counts on block boundaries, several thread counts ----
+
+#[derive(Clone, Debug, Serialize, Deserialize)]
+pub struct BigCase {
+    pub wide: bool,
+    pub n_sel: u16,
+    pub rows_sel: u16,
+    pub salt: u64,
+    pub stride: u16,
+    pub pgap: u8,
+    pub freq: Freq,
+    pub threads: u8,
+    pub via_cli: bool,
+}
+
+fn big_strategy() -> BoxedStrategy<BigCase> {
+    (any::<bool>(), any::<u16>(), any::<u16>(), any::<u64>(), any::<u16>(), 0u8..40, freq_strategy(), prop::sample::select(vec![1u8, 2, 3, 4, 8, 16]), prop::bool::weighted(0.5))
+        .prop_map(|(wide, n_sel, rows_sel, salt, stride, pgap, freq, threads, via_cli)| BigCase { wide, n_sel, rows_sel, salt, stride, pgap, freq, threads, via_cli })
+        .boxed()
+}
+
+fn big_dims(c: &BigCase) -> (usize, usize, usize) {
+    const NS: [usize; 11] = [8, 9, 15, 16, 17, 31, 32, 33, 63, 64, 65];
+    const ROWS: [usize; 6] = [255, 256, 257, 1023, 1024, 1025];
+    (if c.wide { 35 } else { 17 }, NS[gen::idx(c.n_sel, NS.len())], ROWS[gen::idx(c.rows_sel, ROWS.len())])
+}
+
+fn check_big(c: &BigCase, ctx: &Ctx) -> Outcome {
+    let (k, n, rows) = big_dims(c);
+    let t = big_symbol_table(k, n, rows, c.salt, c.pgap, 0, c.stride);
+    let threshold = c.freq.ceil(n);
+    let exp = model_distance(&t, threshold);
+    let dir = ctx.case_dir();
+    let r: Result<(), Outcome> = (|| {
+        let got = if c.via_cli {
+            let res = if c.wide { save_table::<u128>(&t, k, false, &dir.join("a.skf"), false) } else { save_table::<u64>(&t, k, false, &dir.join("a.skf"), false) };
+            res.map_err(Outcome::Infra)?;
+            let (fa, ts) = (c.freq.arg(n), c.threads.to_string());
+            let args: Vec<&str> = vec!["distance", "a.skf", "--min-freq", &fa, "--threads", &ts];
+            let o = run_ska(ctx, &dir, &args);
+            must_ok(&o, &format!("ska {}", args.join(" ")))?;
+            parse_dist(&o.out_str()).map_err(Outcome::Fail)?
+        } else if c.wide {
+            dist_inproc::<u128>(&t, k, false, c.freq.value(n), true, &dir.join("a.txt"), false).map_err(Outcome::Fail)?
+        } else {
+            dist_inproc::<u64>(&t, k, false, c.freq.value(n), true, &dir.join("a.txt"), false).map_err(Outcome::Fail)?
+        };
+        check_values(&got).map_err(Outcome::Fail)?;
+        compare(&got, &exp, "distance table").map_err(Outcome::Fail)
+    })();
+    ctx.done(&dir);
+    match r {
+        Err(Outcome::Fail(m)) => Outcome::Fail(format!("k={k} table of {n} samples x {rows} rows (salt {}, gaps {}%), min_freq={} (threshold {threshold}) threads={} via_cli={}: {m}", c.salt, c.pgap, c.freq.value(n), c.threads, c.via_cli)),
+        Err(o) => o,
+        Ok(()) => {
+            let mut cl = vec![];
+            if c.via_cli && c.threads > 1 { cl.push("threads>1"); }
+            if n % 8 != 0 { cl.push("samples_not_multiple_of_8"); }
+            if threshold >= 2 { cl.push("threshold>=2"); }
+            pass(true, key_of(&(k, n, rows, c.salt, c.pgap, &c.freq, c.threads, c.via_cli)), cl)
+        }
+    }
+}
+
+const BIG_RULE: &str = "generated: unambiguous tables of 8..65 samples (on and next to 8,16,32,64) x 255..1025 rows (constant, constant with gaps, one deviating sample at any column, two alleles split at a column, random with generated gap density), k=17 / k=35, written through the public API; min-freq selectors as in the inproc stage; half of the cases through ska distance with --threads in {1,2,3,4,8,16}. Oracle: every line == model (pairs in order, SNP count, mismatch proportion). Every case non-trivial (hundreds of pairs with SNPs and mismatches).";
+
 fn stages(tier: Tier) -> Vec<Box<dyn Stage>> {
     vec![
         gen_stage_show("inproc", RULE, tier.pick(12_000, 200_000), 1500, case_strategy, |c, ctx| check(c, ctx, false), show),
         gen_stage_show("cli", RULE, tier.pick(1600, 20_000), 200, case_strategy, |c, ctx| check(c, ctx, true), show),
+        gen_stage_show("wide_and_long", BIG_RULE, tier.pick(160, 2400), 20, big_strategy, check_big, |c| { let (k, n, rows) = big_dims(c); json!({"k": k, "samples": n, "rows": rows, "salt": c.salt, "threads": c.threads, "via_cli": c.via_cli}) }),
         gen_stage_show("built", "generated: 2-8 related genomes through ska build (tables with ambiguity codes rejected as outside the domain), ska distance -o file with generated min-freq/threads; == model. Non-trivial: a pair with both a SNP and a k-mer mismatch.", tier.pick(640, 8000), 150, built_strategy, check_built, |c| json!({"k": c.set.k, "samples": c.set.samples.len()})),
     ]
 }
